@@ -530,12 +530,16 @@ func genC10(seed, index uint64, tier string) *Plan {
 	}
 	n := 1 + g.N(30)
 	faulty := g.Chance(0.3)
+	wide := g.Chance(0.25) // revision numbers whose decimal spellings are prefixes of each other
 	p.Variant = "clean"
 	if faulty {
 		p.Variant = "faults"
 	}
 	for i := 0; i < n; i++ {
 		op := &StoreOp{Name: names[g.N(len(names))], Rev: 1 + g.N(4)}
+		if wide {
+			op.Rev = []int{1, 2, 10, 11, 12, 100}[g.N(6)]
+		}
 		switch g.Weighted(6, 4, 4, 3, 2, 4, 3) {
 		case 6:
 			op.Op = "rmw"
@@ -567,6 +571,9 @@ func genC10(seed, index uint64, tier string) *Plan {
 			}
 			if g.Chance(0.3) {
 				op.Labels["version"] = fmt.Sprint(1 + g.N(4))
+				if wide {
+					op.Labels["version"] = fmt.Sprint([]int{1, 2, 10, 11, 12, 100}[g.N(6)])
+				}
 			}
 		}
 		if op.Op == "create" || op.Op == "update" {
